@@ -45,8 +45,9 @@ fn all<'de, R: parse::Read<'de>>(mut p: parse::Parser<R>) -> Result<Vec<lexpr::V
 
 fn opts(i: usize) -> Options { if i == 0 { Options::default() } else { Options::elisp() } }
 
-fn cases(_ob: &str) -> Vec<String> {
+fn cases(ob: &str) -> Vec<String> {
     let mut out = vec![];
+    if let Some(seed) = crate::gen::thorough_seed(ob) { for t in crate::gen::texts(seed ^ 6, 200, true) { for oi in 0..2 { out.push(format!("samex:{}:{}", crate::hex(t.as_bytes()), oi)); out.push(format!("failx:{}:{}", crate::hex(t.as_bytes()), oi)); } } }
     for (ci, _) in corpus().iter().enumerate() {
         for oi in 0..2 {
             out.push(format!("same:{}:{}", ci, oi));
@@ -58,11 +59,12 @@ fn cases(_ob: &str) -> Vec<String> {
 
 fn check(case: &str) -> Option<String> {
     let p: Vec<&str> = case.split(':').collect();
-    let text = *corpus().get(p.get(1)?.parse::<usize>().ok()?)?;
+    let owned: String;
+    let text: &str = if p[0].ends_with('x') { owned = String::from_utf8(crate::unhex(p.get(1)?)).ok()?; &owned } else { *corpus().get(p.get(1)?.parse::<usize>().ok()?)? };
     let oi = p.get(2)?.parse::<usize>().ok()?;
     let full = show(&all(parse::Parser::from_str_custom(text, opts(oi))));
     match p[0] {
-        "same" => {
+        "same" | "samex" => {
             let sl = show(&all(parse::Parser::from_slice_custom(text.as_bytes(), opts(oi))));
             if sl != full { return Some(format!("{:?}: str gives {}, slice gives {}", text, full, sl)); }
             for (chunk, intr) in [(1usize, 0usize), (1, 2), (2, 3), (3, 0), (64, 0)] {
@@ -72,7 +74,7 @@ fn check(case: &str) -> Option<String> {
             }
             None
         }
-        "fail" => {
+        "fail" | "failx" => {
             for k in 0..=text.len() {
                 for (chunk, intr) in [(1usize, 0usize), (2, 3)] {
                     let rd = Sched { data: text.as_bytes().to_vec(), pos: 0, chunk, interrupt_every: intr, calls: 0, fail_at: Some(k) };
